@@ -1,6 +1,6 @@
 #!/bin/bash
 # run every registered check on the unchanged tree (refreshes evidence/); prints one line per property
-cd /verif
+cd "$(dirname "$0")/.."
 for p in $(python3 -c "import json;print(' '.join(c['property_id'] for c in json.load(open('MANIFEST.json'))['checks']))"); do
   bin/check $p --tier ${1:-quick} | grep -v "^KNOWN" | tail -1
 done
